@@ -300,7 +300,7 @@ def run_plan(prop, plan, seed, config='asan', jobs=None):
     return total, meta
 
 
-def legal(meta, ops, upto=None):
+def legal(meta, ops, upto=None, two_monitors=False):
     """Replay ops through the model and check the generator's territory rules. Returns preds or None."""
     m = model.Model(meta)
     preds = []
@@ -333,7 +333,7 @@ def legal(meta, ops, upto=None):
                 if op[2] in live_sites or op[1] in m.exps or op[3] not in m.objs:
                     return None
                 ob = m.objs[op[3]]
-                if ob.kind != m.sites[op[2]]['cls'] or ob.mons:
+                if ob.kind != m.sites[op[2]]['cls'] or (ob.mons and not two_monitors):
                     return None
                 if len(op) - 4 != m.sites[op[2]]['nseq'] or any(s not in m.seqs for s in op[4:]):
                     return None
@@ -446,8 +446,8 @@ def parse_ops(meta, lines):
     return ops
 
 
-def run_literal(prop, exe, meta, ops, res):
-    preds = legal(meta, ops)
+def run_literal(prop, exe, meta, ops, res, two_monitors=False):
+    preds = legal(meta, ops, two_monitors=two_monitors)
     if preds is None:
         res.inconclusive.append('literal scenario is not legal for the current shape table')
         return
